@@ -622,7 +622,7 @@ type onceInfo struct {
 	lits     map[*ssa.Function]bool
 	doCalls  map[*ssa.Function][]*ssa.Call // function -> its Do calls on this Once
 	oncePath Path
-	region   []Path // paths inside g written under this Once
+	region   map[*ssa.Global][]Path // package state written under this Once (usually inside g itself)
 }
 
 func (oi *onceInfo) name() string {
@@ -632,13 +632,30 @@ func (oi *onceInfo) name() string {
 	return oi.g.Name() + PrettyPath(oi.g.Type().(*types.Pointer).Elem(), oi.oncePath)
 }
 
-func (oi *onceInfo) covers(p Path) bool {
-	for _, r := range oi.region {
+func (oi *onceInfo) covers(g *ssa.Global, p Path) bool {
+	for _, r := range oi.region[g] {
 		if Overlap(r, p) {
 			return true
 		}
 	}
 	return false
+}
+
+func (oi *onceInfo) regionSize() int {
+	n := 0
+	for _, ps := range oi.region {
+		n += len(ps)
+	}
+	return n
+}
+
+func (oi *onceInfo) regionNames() string {
+	var ns []string
+	for g := range oi.region {
+		ns = append(ns, g.Name())
+	}
+	sort.Strings(ns)
+	return strings.Join(ns, ", ")
 }
 
 // onces finds every sync.Once (a field of a package-level variable, identified
@@ -666,7 +683,7 @@ func (a *Analysis) onces() map[onceKey]*onceInfo {
 				k := onceKey{pvs[0].Loc.Root.Global, pvs[0].Loc.Path}
 				oi := out[k]
 				if oi == nil {
-					oi = &onceInfo{g: k.g, lits: map[*ssa.Function]bool{}, doCalls: map[*ssa.Function][]*ssa.Call{}, oncePath: k.path}
+					oi = &onceInfo{g: k.g, lits: map[*ssa.Function]bool{}, doCalls: map[*ssa.Function][]*ssa.Call{}, oncePath: k.path, region: map[*ssa.Global][]Path{}}
 					out[k] = oi
 				}
 				oi.lits[lit] = true
@@ -676,11 +693,11 @@ func (a *Analysis) onces() map[onceKey]*onceInfo {
 	}
 	// protected regions: what the functions run under the Once write inside its variable
 	for _, oi := range out {
-		seen := map[Path]bool{}
+		seen := map[Loc]bool{}
 		add := func(ev Event) {
-			if ev.Op == OpWrite && ev.Loc.Root.Kind == KGlobal && ev.Loc.Root.Global == oi.g && !isOncePath(oi.g, ev.Loc.Path) && !seen[ev.Loc.Path] {
-				seen[ev.Loc.Path] = true
-				oi.region = append(oi.region, ev.Loc.Path)
+			if ev.Op == OpWrite && ev.Loc.Root.Kind == KGlobal && !isOncePath(ev.Loc.Root.Global, ev.Loc.Path) && !seen[ev.Loc] {
+				seen[ev.Loc] = true
+				oi.region[ev.Loc.Root.Global] = append(oi.region[ev.Loc.Root.Global], ev.Loc.Path)
 			}
 		}
 		for l := range oi.lits {
@@ -701,7 +718,31 @@ func (a *Analysis) onces() map[onceKey]*onceInfo {
 				}
 			}
 		}
-		sort.Slice(oi.region, func(i, j int) bool { return oi.region[i] < oi.region[j] })
+		for g := range oi.region {
+			ps := oi.region[g]
+			sort.Slice(ps, func(i, j int) bool { return ps[i] < ps[j] })
+		}
+	}
+	return out
+}
+
+// directCallers: functions with a direct static call of f (not through sync.Once.Do).
+func (a *Analysis) directCallers(f *ssa.Function) []*ssa.Function {
+	var out []*ssa.Function
+	for _, g := range a.P.Funcs {
+		found := false
+		for _, b := range g.Blocks {
+			for _, in := range b.Instrs {
+				if c, ok := in.(ssa.CallInstruction); ok {
+					if callee, _ := load.StaticCallee(c); callee == f {
+						found = true
+					}
+				}
+			}
+		}
+		if found {
+			out = append(out, g)
+		}
 	}
 	return out
 }
@@ -841,11 +882,11 @@ func (a *Analysis) RGlobal() []report.Obligation {
 						continue
 					}
 					n++
-					if oi := litOf[f]; oi != nil && ev.Loc.Root.Kind == KGlobal && ev.Loc.Root.Global == oi.g {
-						continue
+					if oi := litOf[f]; oi != nil && ev.Loc.Root.Kind == KGlobal && (ev.Loc.Root.Global == oi.g || len(a.directCallers(f)) == 0) {
+						continue // the function run under a Once (and only there) builds the state that Once protects
 					}
-					if oi := doCallOf[in]; oi != nil && ev.Loc.Root.Kind == KGlobal && ev.Loc.Root.Global == oi.g {
-						continue // performed by the function run under this Once, on the variable holding the Once
+					if oi := doCallOf[in]; oi != nil && ev.Loc.Root.Kind == KGlobal {
+						continue // performed by the function run under this Once
 					}
 					if len(bad) < 3 {
 						bad = append(bad, fi.EventString(ev))
@@ -858,7 +899,7 @@ func (a *Analysis) RGlobal() []report.Obligation {
 			}
 		}
 		if litOf[f] != nil && o.OK {
-			o.Detail = fmt.Sprintf("sync.Once literal: its %d write events all target %s, the variable holding its Once", n, litOf[f].g.Name())
+			o.Detail = fmt.Sprintf("runs only under the sync.Once %s: its %d write events build the state that Once protects (%s)", litOf[f].name(), n, litOf[f].regionNames())
 		}
 		if !o.OK {
 			o.Detail = "writes package-level state outside the package initialiser / its own sync.Once literal: " + strings.Join(bad, "; ")
@@ -868,10 +909,9 @@ func (a *Analysis) RGlobal() []report.Obligation {
 	// (2) every access of Once-protected state is after the Do
 	for _, k := range keys {
 		oi := onces[k]
-		g := oi.g
 		for _, f := range a.P.Funcs {
 			if oi.lits[f] {
-				continue // the literal itself
+				continue
 			}
 			fi := a.Info[f]
 			var guards []ssa.Instruction
@@ -896,13 +936,14 @@ func (a *Analysis) RGlobal() []report.Obligation {
 						continue // the initialiser's own accesses, inside the Once
 					}
 					for _, ev := range fi.Events[in] {
-						if ev.Inherited || ev.Loc.Root.Kind != KGlobal || ev.Loc.Root.Global != g {
+						if ev.Inherited || ev.Loc.Root.Kind != KGlobal {
 							continue
 						}
 						if ev.Op != OpRead && ev.Op != OpWrite {
 							continue
 						}
-						if isOncePath(g, ev.Loc.Path) || !oi.covers(ev.Loc.Path) {
+						g := ev.Loc.Root.Global
+						if isOncePath(g, ev.Loc.Path) || !oi.covers(g, ev.Loc.Path) {
 							continue // a Once itself, or state this Once does not protect
 						}
 						nAcc++
@@ -937,15 +978,17 @@ func (a *Analysis) RGlobal() []report.Obligation {
 	for i, k := range keys {
 		oi := onces[k]
 		o := report.Obligation{Rule: "R-GLOBAL", Key: "R-GLOBAL/once:" + oi.name(), Config: a.cfg(), Pos: "-", OK: len(oi.lits) == 1,
-			Detail: fmt.Sprintf("%d initialiser function(s) under this sync.Once; it builds %d location(s) of %s", len(oi.lits), len(oi.region), oi.g.Name())}
+			Detail: fmt.Sprintf("%d initialiser function(s) under this sync.Once; it builds %d location(s) of %s", len(oi.lits), oi.regionSize(), oi.regionNames())}
 		for j, k2 := range keys {
-			if j == i || k2.g != k.g {
+			if j == i {
 				continue
 			}
-			for _, r := range onces[k2].region {
-				if oi.covers(r) {
-					o.OK = false
-					o.Detail = fmt.Sprintf("state of %s is written both under %s and under %s", oi.g.Name(), oi.name(), onces[k2].name())
+			for g, ps := range onces[k2].region {
+				for _, r := range ps {
+					if oi.covers(g, r) {
+						o.OK = false
+						o.Detail = fmt.Sprintf("state of %s is written both under %s and under %s", g.Name(), oi.name(), onces[k2].name())
+					}
 				}
 			}
 		}
@@ -978,6 +1021,11 @@ func (a *Analysis) RGlobal() []report.Obligation {
 				}
 			} else {
 				o.Detail = "written only by the package initialiser (see …/writes obligations)"
+				for _, k := range keys {
+					if len(onces[k].region[g]) > 0 {
+						o.Detail = "lazily built under the sync.Once " + onces[k].name() + " (see …/writes and …/after-once obligations)"
+					}
+				}
 			}
 			out = append(out, o)
 		}
